@@ -38,8 +38,9 @@ FourCells == {<<"F", "x">>, <<"F", "y">>, <<"L", "x">>, <<"G", "x">>}
 TwoCells == {<<"F", "x">>, <<"F", "y">>}
 ThreeCells == {<<"F", "x">>, <<"F", "y">>, <<"L", "x">>}
 FiveCells == {<<"F", "x">>, <<"F", "y">>, <<"X", "x">>, <<"L", "x">>, <<"G", "x">>}
-\* path filters: single paths, a directory, a directory and a file
-StdFilters == << {<<nA>>}, {<<nA, nB>>}, {<<nAdotB>>, <<nA, nC>>}, {<<nB>>, <<nA, nB, nC>>} >>
+\* path filters: single paths, a directory, a directory and a file, nested filters
+\* (the last one names a directory and a path below it; the harness passes the deeper one first)
+StdFilters == << {<<nA>>}, {<<nA, nB>>}, {<<nAdotB>>, <<nA, nC>>}, {<<nB>>, <<nA, nB, nC>>}, {<<nA, nB>>, <<nA>>} >>
 
 VARIABLES ph, a, b, ok, out
 vars == <<ph, a, b, ok, out>>
